@@ -1,6 +1,6 @@
 // Mode "render" of verif_genrun (property C19): what the renderers print for generated messages.
 //
-//   verif_genrun render <seed> <states per message> [<pages per package>]
+//	verif_genrun render <seed> <states per message> [<pages per package>]
 //
 // For every message of every registered package a set of states is reached with
 // UnmarshalFrame(payload) on a fresh, Reset() instance: all-zero, all-one, for every signal the
@@ -10,16 +10,17 @@
 // payload itself is printed and the model starts from it.
 //
 // Observation lines (read by ocaml/render_main.ml; all byte strings in hex, "-" = empty):
-//   R <pkg> <msg index> <payload> <frame data> T=<cantext.Marshal> C=<cantext.MarshalCompact>
-//       S=<cantext.MessageString> G=<msg.String()> J=<canjson.Marshal | E on error> V=<json.Valid 0|1>
-//   P <pkg> <url path> <entries> K=<status code> H=<Content-Type> B=<response body>
-//       entries = comma separated <wrapper>:<msg index>:<payload>; wrapper p = the generated message
-//       type itself, r = with ReceiveTime() (zero time), t0/t1 = with TransmitTime() (zero time) and
-//       IsCyclicTransmissionEnabled() false/true: the optional interfaces candebug looks for, as the
-//       generated <Node>_Rx_/<Node>_Tx_ message types provide them. Only zero times are used, so the
-//       page carries no time-dependent text ("Received: never").
-//       The body is what candebug.ServeMessagesHTTP wrote to an httptest.ResponseRecorder for
-//       httptest.NewRequest(GET, <url path>).
+//
+//	R <pkg> <msg index> <payload> <frame data> T=<cantext.Marshal> C=<cantext.MarshalCompact>
+//	    S=<cantext.MessageString> G=<msg.String()> J=<canjson.Marshal | E on error> V=<json.Valid 0|1>
+//	P <pkg> <url path> <entries> K=<status code> H=<Content-Type> B=<response body>
+//	    entries = comma separated <wrapper>:<msg index>:<payload>; wrapper p = the generated message
+//	    type itself, r = with ReceiveTime() (zero time), t0/t1 = with TransmitTime() (zero time) and
+//	    IsCyclicTransmissionEnabled() false/true: the optional interfaces candebug looks for, as the
+//	    generated <Node>_Rx_/<Node>_Tx_ message types provide them. Only zero times are used, so the
+//	    page carries no time-dependent text ("Received: never").
+//	    The body is what candebug.ServeMessagesHTTP wrote to an httptest.ResponseRecorder for
+//	    httptest.NewRequest(GET, <url path>).
 package main
 
 import (
@@ -41,21 +42,21 @@ import (
 	"go.einride.tech/can/pkg/generated"
 )
 
-func init() { extraModes["render"] = renderMode }
+func init() { extraModes["render"] = c19RenderMode }
 
-type rxWrap struct{ generated.Message }
+type c19RxWrap struct{ generated.Message }
 
-func (rxWrap) ReceiveTime() time.Time { return time.Time{} }
+func (c19RxWrap) ReceiveTime() time.Time { return time.Time{} }
 
-type txWrap struct {
+type c19TxWrap struct {
 	generated.Message
 	enabled bool
 }
 
-func (txWrap) TransmitTime() time.Time              { return time.Time{} }
-func (t txWrap) IsCyclicTransmissionEnabled() bool { return t.enabled }
+func (c19TxWrap) TransmitTime() time.Time             { return time.Time{} }
+func (t c19TxWrap) IsCyclicTransmissionEnabled() bool { return t.enabled }
 
-func hx(b []byte) string {
+func c19Hex(b []byte) string {
 	if len(b) == 0 {
 		return "-"
 	}
@@ -63,7 +64,7 @@ func hx(b []byte) string {
 }
 
 // payloads that exercise the raw extremes of every signal of md
-func extremePayloads(rng *rand.Rand, md *descriptor.Message) []can.Data {
+func c19ExtremePayloads(rng *rand.Rand, md *descriptor.Message) []can.Data {
 	ps := []can.Data{dataOf(0), dataOf(^uint64(0))}
 	for _, s := range md.Signals {
 		L := uint(s.Length)
@@ -92,7 +93,7 @@ func extremePayloads(rng *rand.Rand, md *descriptor.Message) []can.Data {
 	return ps
 }
 
-func reach(d dispatcher, md *descriptor.Message, payload can.Data) generated.Message {
+func c19Reach(d dispatcher, md *descriptor.Message, payload can.Data) generated.Message {
 	msg := fresh(d, md)
 	if msg == nil {
 		return nil
@@ -103,9 +104,9 @@ func reach(d dispatcher, md *descriptor.Message, payload can.Data) generated.Mes
 	return msg
 }
 
-func renderLine(pn string, mi int, payload can.Data, msg generated.Message) {
+func c19RenderLine(pn string, mi int, payload can.Data, msg generated.Message) {
 	j, err := canjson.Marshal(msg)
-	js := hx(j)
+	js := c19Hex(j)
 	if err != nil {
 		js = "E"
 	}
@@ -115,13 +116,13 @@ func renderLine(pn string, mi int, payload can.Data, msg generated.Message) {
 	}
 	g := "?"
 	if st, ok := msg.(fmt.Stringer); ok {
-		g = hx([]byte(st.String()))
+		g = c19Hex([]byte(st.String()))
 	}
 	fmt.Fprintf(out, "R %s %x %s %s T=%s C=%s S=%s G=%s J=%s V=%d\n", pn, mi, hexData(payload), hexData(msg.Frame().Data),
-		hx(cantext.Marshal(msg)), hx(cantext.MarshalCompact(msg)), hx([]byte(cantext.MessageString(msg))), g, js, valid)
+		c19Hex(cantext.Marshal(msg)), c19Hex(cantext.MarshalCompact(msg)), c19Hex([]byte(cantext.MessageString(msg))), g, js, valid)
 }
 
-func renderMode(args []string) {
+func c19RenderMode(args []string) {
 	num := func(i int, def int64) int64 {
 		if len(args) > i {
 			if v, err := strconv.ParseInt(args[i], 10, 64); err == nil {
@@ -137,17 +138,17 @@ func renderMode(args []string) {
 		fmt.Fprintf(out, "PKG %s\n", pn)
 		db := d.Database()
 		for mi, md := range db.Messages {
-			ps := extremePayloads(rng, md)
+			ps := c19ExtremePayloads(rng, md)
 			for i := 0; i < perMsg; i++ {
 				ps = append(ps, randPayload(rng))
 			}
 			for _, p := range ps {
-				msg := reach(d, md, p)
+				msg := c19Reach(d, md, p)
 				if msg == nil {
 					fmt.Fprintf(out, "R %s %x %s NOSTATE\n", pn, mi, hexData(p))
 					continue
 				}
-				renderLine(pn, mi, p, msg)
+				c19RenderLine(pn, mi, p, msg)
 			}
 		}
 		if len(db.Messages) == 0 {
@@ -172,7 +173,7 @@ func renderMode(args []string) {
 			for _, mi := range idx {
 				md := db.Messages[mi]
 				p := randPayload(rng)
-				msg := reach(d, md, p)
+				msg := c19Reach(d, md, p)
 				if msg == nil {
 					continue
 				}
@@ -182,11 +183,11 @@ func renderMode(args []string) {
 				case "p":
 					w = msg
 				case "r":
-					w = rxWrap{msg}
+					w = c19RxWrap{msg}
 				case "t0":
-					w = txWrap{msg, false}
+					w = c19TxWrap{msg, false}
 				default:
-					w = txWrap{msg, true}
+					w = c19TxWrap{msg, true}
 				}
 				msgs = append(msgs, w)
 				ents = append(ents, fmt.Sprintf("%s:%x:%s", kind, mi, hexData(p)))
@@ -225,8 +226,8 @@ func renderMode(args []string) {
 			rec := httptest.NewRecorder()
 			req := httptest.NewRequest(http.MethodGet, path, nil)
 			candebug.ServeMessagesHTTP(rec, req, msgs)
-			fmt.Fprintf(out, "P %s %s %s K=%d H=%s B=%s\n", pn, hx([]byte(req.URL.Path)), strings.Join(ents, ","),
-				rec.Code, hx([]byte(rec.Header().Get("Content-Type"))), hx(rec.Body.Bytes()))
+			fmt.Fprintf(out, "P %s %s %s K=%d H=%s B=%s\n", pn, c19Hex([]byte(req.URL.Path)), strings.Join(ents, ","),
+				rec.Code, c19Hex([]byte(rec.Header().Get("Content-Type"))), c19Hex(rec.Body.Bytes()))
 		}
 	}
 }
